@@ -57,7 +57,7 @@ def handle (op : String) (j : Json) : Option (R Json) :=
       let a : Gen.FitArgs (Nat → Float) (Nat → Bool) (Nat → Nat) (Nat → Float) :=
         { opd := fun s => opd[s]!, mask := x.mask, modes := fun i => modes[i]!, normalize := nrm, rho := x.rho, theta := x.theta }
       let Bt := basisTableA x.p k (Gen.fitBasisArgs a)       -- fitA: basis requested with the regenerated argument projection
-      let f := fitTable x.p k (fun s c => Bt[s * k + c]!) a.opd
+      let f := fitTable x.p k (fun s c => Bt[s * k + c]!) (fun s => Gen.fitSelect (a.mask s) (a.opd s))      -- fitA: the regenerated OPD selection
       pure (okJ [("fit", floatsJ f.toList)])
   | "zremove" => some do
       -- zernike_remove(opd, mask, modes, rho, theta) = removeA …: the fit and the basis get the arguments the REGENERATED wiring gives them
@@ -68,7 +68,7 @@ def handle (op : String) (j : Json) : Option (R Json) :=
         { opd := fun s => opd[s]!, mask := x.mask, modes := fun i => modes[i]!, rho := x.rho, theta := x.theta }
       let fa := Gen.removeFitArgs a
       let Bf := basisTableA x.p k (Gen.fitBasisArgs fa)
-      let f := fitTable x.p k (fun s c => Bf[s * k + c]!) fa.opd
+      let f := fitTable x.p k (fun s c => Bf[s * k + c]!) (fun s => Gen.fitSelect (fa.mask s) (fa.opd s))
       let Bb := basisTableA x.p k (Gen.removeBasisArgs a)
       let r := fun s => a.opd s - composeX k (fun s c => Bb[s * k + c]!) (fun c => f[c]!) s
       pure (okJ [("residual", floatsJ ((List.range x.p).map r))])
